@@ -88,6 +88,11 @@ PROPS['C19'] = dict(modules=['Hagall.Props.C19'], profiles=['malformed', 'mixed'
 PROPS['C15'] = dict(modules=['Hagall.Props.C15'], profiles=['mixed'], n=(20, 20), focus=None, tools=['drive', 'extract', 'auth'],
                     extra=['auth_harness'], topics=slice_of([], kinds=[]))
 
+PROPS['C20'] = dict(modules=['Hagall.Props.C20', 'Hagall.Props.C20Prim'], profiles=['module', 'join', 'mixed'], n=(120, 2000),
+                    focus={'quadSample', 'groundPlane', 'region', 'join'}, tools=['drive', 'extract', 'grid'], extra=['grid_harness'],
+                    topics=slice_of(['quadSample', 'groundPlane', 'region', 'debugInfo'], outs={'groundPlaneResp', 'regionResp', 'debugInfoResp', 'error'}),
+                    trusted=['go/cmd/grid (grid harness, exact-arithmetic monitors)', 'Lean Float32 = IEEE binary32 as compiled by leanc; Go float32 on amd64 without FMA'])
+
 # every property's obligations include the facts it rests on (regenerated from the source on every run)
 ABS = {'C14': ['Hagall.Gen.AbsCustom'], 'C17': ['Hagall.Gen.AbsFlags'], 'C04': ['Hagall.Gen.AbsDispatch'],
        'C18': ['Hagall.Gen.AbsLatency'], 'C19': ['Hagall.Gen.AbsChans'], 'C08': ['Hagall.Gen.AbsChans', 'Hagall.Gen.AbsDispatch']}
